@@ -481,7 +481,10 @@ def main(tier, seed):
                 "(single sample, label 0, trailing words, truncated file); every dataset goes through opf2txt/opf2csv/opf2json, "
                 "load_*, parse_loader, Subgraph(from_file). split: n in 1..60 (quick) / ..200, 1..5 features, seeds incl. 0, 1, "
                 "2^32-1, percentages {0, 1, .5, .1, .9, 1/3, .7, .29, .99, .25} or uniform; non-trivial = at least 2 samples "
-                "(and for split 0 < halt < n); distinct = distinct input")
+                "(and for split 0 < halt < n); distinct = distinct input; large-size stream (oracle only): splits of 1025-1200, 2048 and "
+                "4097-4400 samples, of 130-300 samples x 70 / 300 features, near-integer n*percentage at n > 1024; files of 1024, 1025, "
+                "2048, 2500 (1100 classes), 4097 samples, of 65-90 and 257-300 features, of 257-300 classes, non-sequential labels "
+                "among > 256 classes")
     standard_proof_phase(rep, "C18", NEEDED)
     rng = random.Random(seed)
     if os.path.isdir(TMP):
@@ -640,6 +643,11 @@ def _main_body(rep, rng, tier):
                                percentage=float(small["pct"]).hex(), seed=small["seed"]), key=v[0])
     rep.extra["split_oracle_violations"] = nsv
 
+    # ---- large-size stream: splits of > 1024 / > 4096 samples, files of 1024 .. 4097 samples, > 64 / > 256 features,
+    # > 256 classes (harness/large_b.py), judged by split_oracle / convert_oracle
+    import large_b
+    rep.extra["large_oracle_violations"] = large_b.c18_large(rep, rep.seed, tier)
+
     rep.samples = [dict(stream=d["stream"], nf=d["nf"], n_classes=d["n_classes"], samples=d["samples"][:3]) for d in datasets[:2]] + \
                   [dict(split_n=len(c["X"]), pct=c["pct"], seed=c["seed"], Y=c["Y"][:10]) for c in scases[:2]]
     rep.assumptions = [
@@ -685,6 +693,9 @@ def replay(path):
             ds = dict(n_classes=r["n_classes"], nf=r["nf"], stream=r["stream"], extra=[], truncate=0, id_mode="replay",
                       samples=[(s[0], s[1], list(s[2])) for s in r["samples"]])
             v = convert_oracle(ds, run_pipeline_impl(ds, "replay"))
+        elif r["kind"].startswith("large-"):
+            import large_b
+            v = large_b.c18_replay(r)
         else:
             c = dict(X=[[float.fromhex(x) for x in row] for row in r["X"]], Y=r["Y"],
                      pct=float.fromhex(r["percentage"]), seed=r["seed"], mode="replay")
